@@ -621,7 +621,7 @@ pub fn run(tier: &str) -> i32 {
     let parts: Vec<(u32, usize, usize, usize)> = if quick {
         vec![(1, 4, 2, 1), (2, 3, 2, 1)]
     } else {
-        vec![(1, 4, 3, 2), (2, 5, 2, 2), (3, 5, 2, 1)]
+        vec![(1, 4, 3, 2), (2, 4, 2, 2), (2, 5, 2, 1), (3, 5, 2, 1)]
     };
     for (theta, n, sp, max_env) in parts {
         let mut base = ledger_alphabet(n, &[1], sp);
